@@ -7,12 +7,12 @@ CHECKS = {
  # id: (engine, category, technique, level text, level note, design_ref)
  "C01": ("E3 sweep", "model_checking",
          "exhaustive enumeration of login tuples (alphabet products, contiguous key ranges, counter-mode RNG scripts, constructed rare-class witnesses) on the real typestate API under a scripted RNG",
-         "Every login in the stated finite spaces is executed through the real public API with salt, b and a chosen by the explorer; oracle: both sides accept, byte-identical K, accessors return what was stored, the exchange after export/re-import is identical to the direct one. Rare classes (S with 1/2/3 low zero bytes, high zero bytes in S/A/B/v, negative B-k*v) are constructed witnesses re-validated by the reference model on every run.",
+         "Every login in the stated finite spaces, and every sequence of 2 (thorough: 3) logins over 11 configurations executed back to back on one thread, is run through the real public API with salt, b and a chosen by the explorer; oracle: both sides accept, byte-identical K, accessors return what was stored, the exchange after export/re-import is identical to the direct one. Rare classes (S with 1/2/3 low zero bytes, high zero bytes in S/A/B/v, negative B-k*v) are constructed witnesses re-validated by the reference model on every run.",
          "Complete over the stated alphabets/ranges/witnesses, not over 2^256 keys and salts; RNG seam trusted to be the library's only entropy source (checked by draw log).",
          "DESIGN.md section 3, C01"),
  "C02": ("E2 choices", "model_checking",
          "deviation-bounded exploration of an adversary on the wire (typed credentials, every single-bit change of B, salt, A, M1, M2) over the real four-message exchange, exact-equality reference oracle per party",
-         "For each session every execution with <= 1 deviation (1,094 per session) and, for a few sessions, every pair of deviations is run on the real code; each party must accept iff the presented proof equals the reference proof determined by its own view, errors must carry both proofs.",
+         "For each session every execution with <= 1 deviation (1,095 per session, incl. A replaced by A+N) and, for a few sessions, every pair of deviations is run on the real code; each party must accept iff the presented proof equals the reference proof determined by its own view, errors must carry both proofs. Structured multi-bit alterations of M1 and M2 (all pairs of bit flips in the thorough tier, byte replacements, truncations, rotations, word-cancelling flips) are run against clones of the real typestate objects.",
          "Session alphabet finite; deviation bound 1 (2 for a few sessions).",
          "DESIGN.md section 3, C02"),
  "C03": ("E3 sweep", "model_checking",
@@ -37,7 +37,7 @@ CHECKS = {
          "DESIGN.md section 3, C06"),
  "C07": ("E1 statespace", "model_checking",
          "explicit-state BFS to fixpoint over the real EncrypterHalf/DecrypterHalf objects, lockstep reference recurrence",
-         "Per key and direction the complete reachable state graph (10,240 states x 257 actions) of the real Vanilla halves is closed to fixpoint and every transition is compared with the reference recurrence; the closed-loop (encrypter, decrypter) graph is closed too, so round-tripping holds for streams of unbounded length for the explored keys; chunking equivalence is checked from every reachable state. Rotating keys put every byte value at every key position, so the step function is executed on its whole domain (thorough).",
+         "Per key and direction the complete reachable state graph (10,240 states x 257 actions) of the real Vanilla halves is closed to fixpoint and every transition is compared with the reference recurrence; the closed-loop (encrypter, decrypter) graph is closed too, so round-tripping holds for streams of unbounded length for the explored keys; chunking equivalence is checked from every reachable state; the visited set is keyed on the reference state with an identity-or-behaviour check at every merge; a long-stream walk (2^24 bytes quick, 2^32+2^20 thorough) catches hidden counters. Rotating keys put every byte value at every key position, so the step function is executed on its whole domain (thorough).",
          "Session keys outside the key alphabet are not explored; assumes the step at position i reads only key[i] (checked on the explored keys).",
          "DESIGN.md section 3, C07"),
  "C08": ("E1 statespace", "model_checking",
@@ -48,7 +48,7 @@ CHECKS = {
  "C09": ("E1 statespace (path)", "model_checking",
          "depth-bounded walk of the keystream path of all four real halves against a reference RC4-drop1024/HMAC; complete call-composition trees at the counter wrap offsets",
          "For each key the four real halves are stepped along the stream (past the 256- and 65,536-byte wraps) with varying call sizes and compared byte for byte with an independent RC4 keyed by HMAC-SHA1(direction constant, K) after dropping 1024 bytes; both pairings round-trip at every offset; every composition of a 10-byte window into calls is executed at the wrap offsets with object equality.",
-         "Depth-bounded (2^17+300 bytes quick, 2^20 thorough): RC4's state space cannot be closed; key alphabet finite.",
+         "Depth-bounded (2^21 bytes quick; thorough 2^26 for 8 keys and 2^32+2^20 per direction for one connection): RC4's state space cannot be closed; key alphabet finite.",
          "DESIGN.md section 3, C09"),
  "C10": ("E3 sweep + E1", "model_checking",
          "exhaustive enumeration of all 2^23 sizes and all 2^16 opcodes (each against an alphabet of the other) through both emitters and both decoders; BFS over mixed header sequences with exact dedup",
@@ -62,7 +62,7 @@ CHECKS = {
          "DESIGN.md section 3, C11"),
  "C12": ("E1 statespace + E4 loom + E3", "model_checking",
          "BFS over interleavings of {encrypt, decrypt, split, clone, unsplit} with a differential oracle (separate single-direction objects) and the reference model; loom exploration of all schedules of two real halves in two threads; exhaustive one-byte key differences for unsplit",
-         "Every interleaving up to the depth bound is executed on the real combined object / halves and each direction's bytes are compared with a separate object and the reference model; loom runs all schedules (no preemption bound) of 2 threads x 3 operations over the real halves for five harnesses and all 20 operation orders are observed; Vanilla unsplit is decided for all 40x255 one-byte and all two-position key differences.",
+         "Every interleaving up to the depth bound is executed on the real combined object / halves and each direction's bytes are compared with a separate object and the reference model; loom runs all schedules (no preemption bound) of 2 threads x 3 operations over the real halves for five harnesses and all 20 operation orders are observed; Vanilla unsplit is decided for all 40x255 one-byte and all two-position key differences; two Wrath client connections are interleaved through the typed header API (incl. clones and completion of a long header on another thread) by BFS.",
          "Interleaving depth bounded; the schedules argument rests on ownership (no statics/interior mutability - scanned and reported) plus call-level interleavings.",
          "DESIGN.md section 3, C12"),
  "C13": ("E3 sweep", "model_checking",
@@ -72,7 +72,7 @@ CHECKS = {
          "DESIGN.md section 3, C13"),
  "C14": ("E3 sweep + E1", "model_checking",
          "enumeration of adversarial and algebraically targeted peer values (incl. B = k*v mod N forcing S = 0) through the typestate API with catch_unwind; BFS over header byte sequences",
-         "Every combination of the adversarial alphabets for A, M1, reconnect values (server) and B, salt, M2 (client) with a and b pinned by the RNG script is executed; no call may unwind and results must match the reference where it is defined; header decrypt calls in any order (incl. the Wrath large-header byte before any attempt, short readers) are explored by BFS.",
+         "Every combination of the adversarial alphabets for A, M1, reconnect values (server) and B, salt, M2 (client) with a and b pinned by the RNG script is executed; no call may unwind and results must match the reference where it is defined; header decrypt calls in any order (incl. the Wrath large-header byte before any attempt, short readers) are explored by BFS; chosen-plaintext headers (every first byte x alphabets) go through every decrypt entry point; runs of 66,000+ rejected reconnect attempts; the library is built with overflow checks and debug assertions on.",
          "Byte values outside the adversarial alphabets are not explored.",
          "DESIGN.md section 3, C14"),
  "C15": ("E2/E3 over the RNG environment", "model_checking",
@@ -97,7 +97,7 @@ CHECKS = {
          "DESIGN.md section 3, C18"),
  "C19": ("E5 dualbuild", "model_checking",
          "the same exhaustive case lists compiled against both big-integer back ends (num-bigint, rug/GMP); canonical transcripts compared line by line",
-         "Every case of the C01 login layers (incl. zero private keys), C03 seam operands/S shapes, announced groups (incl. the even prime 2 and tiny moduli), C04 own-key steering and C14 hostile server keys is executed once per build; every observable (bytes, error kind, panic) must be identical.",
+         "Every case of the C01 login layers (incl. zero private keys), C03 seam operands/S shapes, announced groups (incl. the even prime 2, tiny, composite and even moduli), C04 own-key steering and C14 hostile server keys is executed once per build; every observable (bytes, error kind, panic) must be identical.",
          "rug runs on the system GMP 6.2.1 through a vendored version-gate patch (bundled 6.3.0 cannot be built offline).",
          "DESIGN.md section 3, C19"),
 }
